@@ -33,6 +33,7 @@ func registerExtras() {
 	propertyRules["C12"] = append(propertyRules["C12"], rulePrefix)
 	propertyRules["C02"] = append(propertyRules["C02"], ruleVerifyKey, ruleBlockComplete)
 	propertyRules["C15"] = append(propertyRules["C15"], ruleBlockComplete, ruleTimestampUnit)
+	propertyRules["C12"] = append(propertyRules["C12"], ruleBlockComplete)
 	propertyRules["C07"] = append(propertyRules["C07"], ruleVerifyKey)
 	propertyRules["C08"] = append(propertyRules["C08"], ruleVerifyKey)
 	// the quorum is only as good as its uses: every progress decision compares its count with M in normal form (a site
